@@ -190,7 +190,7 @@ def main():
         sigs = br.get('signatures') or {}
         for sig, cnt in sorted(sigs.items()):
             ex_ = [f for f in br.get('failures', []) if f.get('signature') == sig]
-            kf = bounded_known.get(sig) or next((f for f in findings if f.get('status') == 'open' and f['property'] == prop and ((f.get('bounded_signature_prefix') and sig.startswith(f['bounded_signature_prefix'])) or (f.get('bounded_signature_contains') and f['bounded_signature_contains'] in sig))), None)
+            kf = bounded_known.get(sig) or next((f for f in findings if f.get('status') == 'open' and f['property'] == prop and sig in (f.get('bounded_signatures') or [])), None) or next((f for f in findings if f.get('status') == 'open' and f['property'] == prop and ((f.get('bounded_signature_prefix') and sig.startswith(f['bounded_signature_prefix'])) or (f.get('bounded_signature_contains') and f['bounded_signature_contains'] in sig))), None)
             if kf:
                 g = bounded_kf_groups.setdefault((kf['id'], br['id']), dict(kf=kf, n=0, sigs=[], ex=None))
                 g['n'] += cnt
